@@ -46,6 +46,8 @@ def gen_cases(chk):
         for ai, algo in enumerate(polgen.ALGOS + [None]):
             if chk.tier == "quick" and len(pat) == 4 and (n + ai) % 3 != chk.seed % 3:
                 continue
+            if chk.tier != "quick" and len(pat) == 5 and (n + ai) % 2 != chk.seed % 2:
+                continue        # length 5: every pattern with two of the four algorithm settings (alternating)
             cases.append({"fam": "pattern%d" % len(pat), "policy": polgen.pattern_policy(pat, algo, with_obl=(n % 2 == 0)),
                           "env": env, "pattern": "".join(k + e[0] for k, e in pat), "algo": algo})
     # algorithm argument / spelling / unknown names
@@ -98,7 +100,7 @@ def gen_cases(chk):
                 inner.append({"id": "in_%d_%d_%s" % (combo[0], combo[1], algo[0]), "algorithm": algo,
                               "policies": [pool[combo[0]][1], pool[combo[1]][1]]})
     rng = chk.rng
-    n_nested = 4000 if chk.tier == "quick" else 40000
+    n_nested = 4000 if chk.tier == "quick" else 20000
     for _ in range(n_nested):
         def build(d):
             kids = []
@@ -181,7 +183,7 @@ def corpus_cases():
 
 def run(chk):
     chk.rule = ("enumerated: every sequence of rule outcomes (applicable / action mismatch / resource mismatch / "
-                "condition false / condition ill-typed) x effect up to length 4 (thorough 5) x 3 algorithms + absent; "
+                "condition false / condition ill-typed) x effect up to length 4 (thorough 5; the longest length with a third resp. half of the algorithm settings per pattern, rotating with the seed) x 3 algorithms + absent; "
                 "algorithm argument and spellings; every set of <= 3 children over a pool of 12 child policies x "
                 "algorithms; random nested sets to depth 3. non-trivial = some rule applied (a rule id is reported); "
                 "distinct = distinct (document, entry point)")
